@@ -85,9 +85,9 @@ Lemma sel_same_order_refl s : sel_same_order s s = true.
 Proof. destruct s as [|l]; [reflexivity|]. cbn. apply list_eqb_str. reflexivity. Qed.
 
 (* identical arguments are accepted *)
-Theorem caccepts_refl a r : cprecheck a = Ok tt -> caccepts a r a = true.
+Theorem caccepts_refl a r : cprecheck a = Ok tt -> negb (ca_info a) = true -> caccepts a r a = true.
 Proof.
-  unfold cprecheck, caccepts. intros Hp.
+  unfold cprecheck, caccepts. intros Hp Hinfo. rewrite Hinfo, andb_true_r.
   destruct (cli_selects a) as [sel| | |]; cbn [rbind] in Hp; try discriminate.
   destruct (cli_env a) as [oe| | |] eqn:Ee; cbn [rbind] in Hp; try discriminate.
   rewrite N.eqb_refl, !sel_superset_refl, !names_known_refl. cbn [andb].
@@ -116,10 +116,11 @@ Theorem caccepts_spec c r a : caccepts c r a = true ->
   names_known (ca_apps c) (ca_apps a) (map bi_binary (gr_builds r)) = true /\
   (forall p q, ca_local a = Some p -> ca_local c = Some q -> p = q) /\
   ca_select c = ca_select a /\ ca_disable c = ca_disable a /\
-  exists x y, cli_env c = Ok x /\ cli_env a = Ok y /\ env_same x y = true.
+  (exists x y, cli_env c = Ok x /\ cli_env a = Ok y /\ env_same x y = true) /\
+  ca_info a = false.
 Proof.
   unfold caccepts. rewrite !andb_true_iff.
-  intros [[[[[[[[[[Hbin Hpart] Hb] Ha] Hord] Hkb] Hka] Hloc] Hsel] Hdis] Henv].
+  intros [[[[[[[[[[[Hbin Hpart] Hb] Ha] Hord] Hkb] Hka] Hloc] Hsel] Hdis] Henv] Hinfo].
   split; [apply N.eqb_eq; exact Hbin|]. split.
   { destruct (ca_partition c) as [[m n]|], (ca_partition a) as [[m' n']|]; cbn in Hpart; try discriminate; [|reflexivity].
     apply andb_true_iff in Hpart. destruct Hpart as [E1 E2]. apply Nat.eqb_eq in E1, E2. cbn in E1, E2. subst. reflexivity. }
@@ -128,6 +129,7 @@ Proof.
   split; [exact Hkb|]. split; [exact Hka|]. split.
   { intros p q Hp Hq. rewrite Hp, Hq in Hloc. apply str_eqb_eq. exact Hloc. }
   split; [apply list_eqb_str; exact Hsel|]. split; [apply list_eqb_str; exact Hdis|].
+  split; [|apply negb_true_iff; exact Hinfo].
   destruct (cli_env c) as [x| | |]; try discriminate. destruct (cli_env a) as [y| | |]; try discriminate.
   exists x, y. auto.
 Qed.
@@ -321,10 +323,10 @@ Section InstanceFacts.
   Qed.
 
   (* an unchanged project with an identical command line is served from the cache *)
-  Theorem identical_command_line_hits a w w1 r :
+  Theorem identical_command_line_hits a w w1 r : ca_info a = false ->
     crun a 0 w = (w1, ORegen r) -> exists k, crun a k w1 = (w1, OHit (cview a r)).
   Proof.
-    apply identical_run_hits.
+    intros Hinfo. apply (identical_run_hits _ _ _ _ _ _ _ _ _ _ _ (fun x => negb (ca_info x))); [| |rewrite Hinfo; reflexivity].
     - intros a0 r0. apply caccepts_refl.
     - intros t ts. apply cts_valid_self.
   Qed.
